@@ -102,6 +102,12 @@ def build(arr, form, rng):
             for j in range(c):
                 i = j - o
                 data[k, j] = arr[i, j] if 0 <= i < r else complex(7, -7)                 # garbage outside the rectangle
+        if rng.random() < 0.3:
+            # SciPy also accepts diagonals that lie entirely outside the matrix: they hold no entry
+            for o_out in (c + int(rng.integers(0, 3)), -(r + int(rng.integers(0, 3)))):
+                if rng.random() < 0.7:
+                    offs.append(o_out)
+                    data = np.vstack([data, np.full((1, c), complex(5, 5))])
         sci = sp.dia_matrix((data, np.array(offs, dtype=np.int32)), shape=(r, c))
         return _data.Dia(sci, copy=True)
     raise ValueError(form)
